@@ -40,6 +40,11 @@ let () =
           let ((lit, sev), rest) = P21Str.string_read (bytes_of_string data) in
           let hx = String.concat "" (Stdlib.List.map (fun b -> Printf.sprintf "%02x" (int_of_n b)) lit) in
           Printf.printf "T %d %s %d %d\n" (if hx = "" then 0 else 1) (if hx = "" then "-" else hx) (int_of_z sev) (Stdlib.List.length rest)
+        | 'Y' ->
+          let ((v, sev), s) = P21Bin.read_binary s0 nul true in
+          Printf.printf "Y %d %s %d %d %d %d\n" (match v with Some _ -> 1 | None -> 0)
+            (match v with Some l -> string_of_bytes l | None -> "-") (int_of_z sev)
+            (Stdlib.List.length s.rest) (b2i s.eofb) (b2i s.failb)
         | 'W' ->
           (* data = "<rbuf>" : the %.15G text produced by the harness *)
           Printf.printf "W %s\n" (string_of_bytes (write_real_text (bytes_of_string data)))
